@@ -10,7 +10,7 @@ ID = "C05"
 LEVEL = "exploration"
 ENGINE = "E2 detgrid"
 TECHNIQUE = ("metamorphic + differential: Hypothesis over (plaintext, secret, k, N, segment size) x data sources (Data, FileHandle, "
-             "custom IUploadable with generated chunking) on the real Uploader; caps compared across sources and with an independent hashlib reference of the convergent key")
+             "custom IUploadable with generated chunking) on the real Uploader; caps compared across sources, with the same upload under a mid-transfer server failure, and with an independent hashlib reference of the convergent key")
 RULE = ("each case: plaintext of a size around 55/56, segment and k multiples or random (<=6000 bytes quick, <=300 KiB thorough), a convergence secret (random, empty, or None), "
         "(k,N,segment size); uploaded through 2-3 different sources, one of which returns data in a generated chunking, once more (when N >= 2) while one server fails its writes from a generated call number on, and once more with exactly one of "
         "{secret, k, N, segment size} changed. Oracle: same inputs => byte-identical cap from every source, whose key equals the reference "
